@@ -595,7 +595,7 @@ func buildBigFiles(seed int64) []genFile {
 
 // readerKinds: the ways a caller may hand the same bytes to a loader. Every reader yields exactly
 // `data` from its current position.
-var readerKindNames = []string{"bytes.Reader", "bytes.Reader@offset", "strings.Reader@offset", "bufio.Reader", "bytes.Buffer", "plain io.Reader", "io.SectionReader"}
+var readerKindNames = []string{"bytes.Reader", "bytes.Reader@offset", "strings.Reader@offset", "bufio.Reader", "bytes.Buffer", "plain io.Reader", "io.SectionReader", "io.LimitedReader"}
 
 func readerOfKind(data []byte, k int) io.Reader {
 	switch readerKindNames[k%len(readerKindNames)] {
@@ -614,6 +614,8 @@ func readerOfKind(data []byte, k int) io.Reader {
 		return bytes.NewBuffer(append([]byte{}, data...))
 	case "plain io.Reader":
 		return struct{ io.Reader }{bytes.NewReader(data)}
+	case "io.LimitedReader": // a part of a longer stream (an image inside a container, a multipart part)
+		return &io.LimitedReader{R: bytes.NewReader(append(append([]byte{}, data...), []byte("--boundary\r\nContent-Type: text/plain\r\n\r\nmore")...)), N: int64(len(data))}
 	case "io.SectionReader":
 		return io.NewSectionReader(bytes.NewReader(append(make([]byte, 123), data...)), 123, int64(len(data)))
 	}
